@@ -108,3 +108,5 @@ func (r *replica) traffic(rnd *rand.Rand, txs [][]byte) {
 		}
 	}
 }
+
+func (f *Fam) downtime() bool { return strings.Contains(f.Profile, "downtime") }
